@@ -34,3 +34,19 @@ Definition c01_check (c : c01case) : bool :=
         let sub := zsubcell (children t) a b in
         list_eqb String.eqb (map zename sub) names && zbeam_eqb (ztrack (Seg "sub" sub) (c_in c)) out
       end).
+
+(* Variant for the tree after the repair of finding F28 (Segment.length of an empty segment is 0 instead of raising):
+   the length is always defined and equals the model's sum (empty sum = 0). *)
+Definition c01_check_len_total (c : c01case) : bool :=
+  let t := c_tree c in
+  zbeam_eqb (ztrack t (c_in c)) (c_out c)
+  && zbeam_eqb (ztrack (zflattened t) (c_in c)) (c_flat_out c)
+  && (match c_len c with Some l => zelen t =? l | None => false end)
+  && Bool.eqb (zskippable t) (c_skip c)
+  && list_eqb String.eqb (map zename (children (zflattened t))) (c_flat_names c)
+  && (match c_sub c with
+      | None => true
+      | Some (a, b, names, out) =>
+        let sub := zsubcell (children t) a b in
+        list_eqb String.eqb (map zename sub) names && zbeam_eqb (ztrack (Seg "sub" sub) (c_in c)) out
+      end).
